@@ -5,6 +5,8 @@ import (
 	"fmt"
 	"os"
 	"reflect"
+	"runtime"
+	"runtime/debug"
 	"strings"
 	"time"
 
@@ -21,10 +23,25 @@ import (
 //   C08 fuzz str:<ts|pt|pm|ips> <hex input> => ok:reenc-ok | panic
 
 func runFuzz(out *common.Out, decoder string, input []byte) {
+	diag := os.Getenv("C08_SLOW") != ""
+	var m0 runtime.MemStats
+	if diag {
+		runtime.ReadMemStats(&m0)
+	}
 	t0 := time.Now()
 	outcome := fuzzOne(decoder, input)
-	if d := time.Since(t0); d > 20*time.Millisecond && os.Getenv("C08_SLOW") != "" {
-		fmt.Fprintf(os.Stderr, "SLOW %v %s %d bytes %s\n", d, decoder, len(input), outcome)
+	// ugorji grows slices towards an announced length of up to 2^31 elements before it meets the end of
+	// the input (gigabytes for a 60-byte document, then an error): give the memory back at once, so that
+	// the harness's footprint stays bounded on a machine shared with other builds.
+	if time.Since(t0) > 50*time.Millisecond {
+		debug.FreeOSMemory()
+	}
+	if diag {
+		var m1 runtime.MemStats
+		runtime.ReadMemStats(&m1)
+		if d := time.Since(t0); d > 20*time.Millisecond || m1.TotalAlloc-m0.TotalAlloc > 100<<20 {
+			fmt.Fprintf(os.Stderr, "SLOW %v alloc=%dMB %s %d bytes %s x%s\n", d, (m1.TotalAlloc-m0.TotalAlloc)>>20, decoder, len(input), outcome, hex.EncodeToString(input[:minI(len(input), 60)]))
+		}
 	}
 	out.Line("C08 fuzz %s x%s => %s", decoder, hex.EncodeToString(input), outcome)
 }
@@ -210,6 +227,13 @@ func msgpackValues(b []byte) [][2]int {
 
 var msgpackJunk = [][]byte{{0xc0}, {0x90}, {0x80}, {0x00}, {0xff}, {0xa0}, {0xc4, 0x00}, {0xc3}, {0x91, 0xc0}, {0x81, 0xa0, 0xc0}, {0xa1, 'x'}, {0xc4, 0x01, 0x00}, {0xd6, 0xff, 0, 0, 0, 0}, {0xcf, 0xff, 0xff, 0xff, 0xff, 0xff, 0xff, 0xff, 0xff}}
 
+func minI(a, b int) int {
+	if a < b {
+		return a
+	}
+	return b
+}
+
 var interesting = []byte{0x00, 0x01, 0x7f, 0x80, 0xff, 0xc0, 0xc1, 0xc4, 0xc6, 0xd9, 0xdb, 0xdc, 0xdd, 0xde, 0xdf, 0xa0, 0x90, 0x91, 0x81, 0xcf, 0xd3, 0xd6, 0xd7, 0xc7, '{', '}', '[', ']', '"', ',', ':', '&', '=', '%'}
 
 var jsonJunk = []string{"null", "[]", "{}", "\"x\"", "-1", "1e999", "true", "\"\"", "[null]", "{\"/\":\"x\"}", "\"/ip4/1.2.3.4\"", "18446744073709551616", "\"\\ud800\"", "[[[[[[[[]]]]]]]]"}
@@ -331,6 +355,8 @@ func mutate(r *common.Rng, format string, bs []byte) []byte {
 	}
 	return b
 }
+
+func init() { debug.SetMemoryLimit(3 << 30) }
 
 func genFuzz(out *common.Out, r *common.Rng, k int) {
 	wire.NamedStatusOnly = true
